@@ -36,7 +36,7 @@ def required_cells(tier):
     return ["excluded-file-defines-macro-others-test", "excluded-compiled-file", "excluded-header", "out-of-root-header",
             "out-of-root-header-defines-macro", "pattern:path", "pattern:dir", "pattern:ext", "pattern:anchored-dir", "pattern:case-variant", "all-files-excluded",
             "cli:-x-vs-toml", "cli:-x-plus-toml", "cli:tree", "cli:cov", "compiled-file-outside-root",
-            "configuration-via-load_database", "code-base-of-two-directories", "outside-header-included-through-link-in-root"]
+            "configuration-via-load_database", "code-base-of-two-directories", "outside-header-included-through-link-in-root", "code-base-of-two-directories:name-prefix-related"]
 
 
 def attribution(state, case, base):
@@ -204,9 +204,14 @@ def multi_directory_check(ctx, git, case, base, conf, attr0, inroot, realroot, c
     if len(tops) < 2:
         return
     d1, d2 = tops[0], tops[-1]
+    if "inc" in tops and "inc2" in tops and len(case["files"]) % 2 == 0:
+        d1, d2 = "inc", "inc2"          # the first name is a string prefix of the second
+        acc.cells["code-base-of-two-directories:name-prefix-related"] += 1
     dirs = [os.path.join(realroot, d1), os.path.join(realroot, d2)]
     sub1 = sorted({r.split("/")[1] for r in inroot if r.startswith(d1 + "/") and r.count("/") >= 1})
-    pats_list = [["/" + sub1[0]] if sub1 else ["*.h"], ["sub/"], ["/sub/"], ["*.h", "!/x.h"], [d1 + "/"], ["/" + d1 + "/" + (sub1[0] if sub1 else "x")]]
+    sub2 = sorted({r.split("/")[1] for r in inroot if r.startswith(d2 + "/")})
+    pats_list = [["/" + sub1[0]] if sub1 else ["*.h"], ["sub/"], ["/sub/"], ["*.h", "!/x.h"], [d1 + "/"], ["/" + d1 + "/" + (sub1[0] if sub1 else "x")],
+                 ["/" + sub2[0]] if sub2 else ["*.c"], ["/" + x for x in sub2[:2]] + ["/y.h"]]
     for pats in pats_list:
         problems = []
         try:
